@@ -227,7 +227,11 @@ func runCheck(root, repo string, spec *CheckSpec, tier string, seed int, only st
 		eng.Portfolio = true
 		if tier == "thorough" {
 			eng.TimeoutMS = 60000
-			eng.CrossEach = 1
+			// every worker re-decides its first 100 assertion queries and every 20th
+			// after that on the other back ends (re-deciding all of them costs a
+			// process start per query: hours for the larger entries)
+			eng.CrossEach = 20
+			eng.CrossFirst = 100
 		}
 		ur := &unitRun{unit: u, load: eng.LoadTime, eng: eng}
 		for _, es := range u.Entries {
@@ -676,7 +680,7 @@ func writeEvidence(root string, spec *CheckSpec, tier string, seed int, runs []*
 			"stubs_and_models_used":           stubList,
 			"bounds":                          strings.TrimSpace(spec.BoundsText[tier] + " Per entry (harness parameters of this run): " + strings.Join(boundParts, " | ")),
 			"solver_time_s":                   solverT,
-			"solvers":                         "z3 4.8.12 (incremental, primary); fallback portfolio on unknown: cvc5 1.0 --solve-bv-as-int=sum, z3 5.1.0, cvc5 --strings-exp; thorough tier re-discharges every assertion query on the portfolio",
+			"solvers":                         "z3 4.8.12 (incremental, primary); fallback portfolio on unknown: cvc5 1.0 --solve-bv-as-int=sum, z3 5.1.0, cvc5 --strings-exp; thorough tier re-decides a sample of the assertion queries on the portfolio (per worker: the first 100 and every 20th after) and treats a disagreement as inconclusive",
 			"counterexamples_replayed_natively": replayed,
 			"known_findings_hit":              kh,
 			"inconclusive":                    inconclusive,
